@@ -91,6 +91,71 @@ def all_recs(case):
     return sorted({rec_id(p, op['r']) for p, prog in enumerate(case['programs']) for op in prog})
 
 
+# ------------------------------------------------------------------------------------------------------------------
+# values that compare equal without being the same value (1 / True / 1.0, 0 / False / 0.0, 2 / 2.0, 'a' twice), written under
+# the same key / metadata name one after the other by ONE caller: the wrapper forwards every request, so the stored recordings
+# are those of the synchronous twin down to the TYPE of every value.  Sequential (no schedule to explore); not modelled
+# (the model's values are opaque numbers) - the oracle is the statement itself.
+# ------------------------------------------------------------------------------------------------------------------
+EQ_POOL = [1, True, 1.0, 0, False, 0.0, 2, 2.0, 'a', 'a', None, '', []]
+
+
+def gen_seqeq(rng):
+    ops = []
+    for r in range(rng.choice([1, 1, 2])):
+        pool = rng.sample(range(len(EQ_POOL)), rng.randint(2, 5))
+        for _ in range(rng.randint(2, 7)):
+            ops.append([r, rng.choice(['set', 'set', 'meta']), rng.randint(1, 2), rng.choice(pool)])
+        ops.append([r, 'save'])
+    return {'kind': 'seqeq', 'model': False, 'ops': ops, 'failing': rng.random() < 0.25}
+
+
+def gen_burst(rng, n):
+    """a burst: one caller requests n writes (far more than any reasonable batch size) while the flusher sleeps, then saves
+    and closes - every one of them is applied"""
+    ops = [[0, 'set', i, rng.choice([0, 3, 6])] for i in range(n)]
+    for _ in range(rng.randint(0, 3)):
+        ops.insert(rng.randint(0, len(ops)), [0, 'meta', rng.randint(1, 2), 3])
+    return {'kind': 'seqeq', 'model': False, 'ops': ops + [[0, 'save']], 'flush_interval': rng.choice([3600, 3600, 0.001]), 'burst': n}
+
+
+def run_seqeq(case):
+    from playback.tape_cassettes.in_memory.in_memory_tape_cassette import InMemoryTapeCassette
+    from playback.tape_cassettes.asynchronous.async_record_only_tape_cassette import AsyncRecordOnlyTapeCassette
+
+    def typed(v):
+        return [type(v).__name__, repr(v)]
+
+    def dump(inner):
+        out = []
+        for rid in inner._recordings:
+            rec = inner.get_recording(rid)
+            out.append({'data': sorted([k, typed(rec.get_data(k))] for k in rec.get_all_keys()),
+                        'meta': sorted([k, typed(v)] for k, v in rec.get_metadata().items())})
+        return out
+
+    def play(cassette, close):
+        recs = {}
+        for op in case['ops']:
+            r = op[0]
+            if r not in recs:
+                recs[r] = cassette.create_new_recording('Cat')
+            if op[1] == 'set':
+                recs[r].set_data('k%d' % op[2], EQ_POOL[op[3]])
+            elif op[1] == 'meta':
+                recs[r].add_metadata({'m%d' % op[2]: EQ_POOL[op[3]]})
+            else:
+                cassette.save_recording(recs[r])
+        close()
+    sync = InMemoryTapeCassette()
+    play(sync, lambda: None)
+    inner = InMemoryTapeCassette()
+    wrapper = AsyncRecordOnlyTapeCassette(inner, flush_interval=case.get('flush_interval', 0.001), timeout_on_close=60)
+    wrapper.start()
+    play(wrapper, wrapper.close)
+    return {'async': dump(inner), 'sync': dump(sync)}
+
+
 class Injected(Exception):
     """the failure injected into a wrapped call"""
 
@@ -630,6 +695,10 @@ class C12(Prop):
             c = self.rand_workload(rng, rng.choice([1, 2, 2, 3]))
             c['sched'] = self.rand_sched(rng)
             cases.append(c)
+        for _ in range(150 if tier == 'quick' else 2000):
+            cases.append(gen_seqeq(rng))
+        for n in ([1001, 2300] if tier == 'quick' else [1001, 1024, 2000, 2049, 4097, 5000, 10001, 3 * 4096 + 1]):
+            cases.append(gen_burst(rng, n))
         return cases
 
     @staticmethod
@@ -665,6 +734,8 @@ class C12(Prop):
 
     # ---------------------------------------------------------------------------------------------------- running
     def run_impl(self, case):
+        if case.get('kind') == 'seqeq':
+            return run_seqeq(case)
         impl = run_real(case)
         impl.pop('decisions', None)
         counts = [0] * len(case['programs'])
@@ -683,6 +754,8 @@ class C12(Prop):
 
     def model_requests(self, case):
         impl = case.get('_impl') or {}
+        if case.get('kind') == 'seqeq':
+            return []
         if case.get('model') is False:
             return []       # caller-side mutation of written values: the model keeps immutable values (K9)
         if has_mutation(case) or any(op.get('list') for prog in case['programs'] for op in prog):
@@ -693,6 +766,8 @@ class C12(Prop):
                 {'m': 'c12.sync', 'programs': [prog[:counts[p]] for p, prog in enumerate(programs)], 'recs': all_recs(case)}]
 
     def model_transcript(self, case, answers):
+        if case.get('kind') == 'seqeq':
+            return None
         if case.get('model') is False:
             return self.impl_view(case, case['_impl'])      # correspondence skipped, the oracle decides
         a, s = answers
@@ -701,6 +776,8 @@ class C12(Prop):
                 'appended': a['appended'], 'before_close': len(a['beforeClose']) if a['stop'] else None}
 
     def impl_view(self, case, impl):
+        if case.get('kind') == 'seqeq':
+            return None
         appended = [[p, k] for p, k in impl['appends']]
         return {'applied': impl['applied'], 'stopped': impl['flusher_stopped'], 'buffered': impl['buffered'],
                 'store': norm_store(impl['store']), 'twin': norm_store(impl['twin']['store']),
@@ -708,6 +785,16 @@ class C12(Prop):
 
     # ---------------------------------------------------------------------------------------------------- oracle
     def oracle(self, case, impl):
+        if case.get('kind') == 'seqeq':
+            if impl['async'] != impl['sync']:
+                if case.get('burst'):
+                    na = sum(len(r['data']) for r in impl['async'])
+                    return ['a burst of %d writes by one caller, then save and close: the wrapper left %d recordings holding %d '
+                            'data keys, recording directly leaves %d holding %d'
+                            % (case['burst'], len(impl['async']), na, len(impl['sync']), sum(len(r['data']) for r in impl['sync']))]
+                return ['one caller, writes of equal-but-different values: recording through the wrapper stored %r, recording '
+                        'directly stores %r' % (impl['async'], impl['sync'])]
+            return []
         f = []
         progs = case['programs']
         sched_txt = 'schedule %r (granularity %s)' % (impl.get('choices'), case.get('gran', 'line'))
@@ -792,9 +879,13 @@ class C12(Prop):
 
     # ---------------------------------------------------------------------------------------------------- evidence
     def nontrivial(self, case, impl):
+        if case.get('kind') == 'seqeq':
+            return True
         return len(impl['applied']) > 0 and len(impl['choices']) > 0
 
     def features(self, case, impl):
+        if case.get('kind') == 'seqeq':
+            return ['sequential:burst'] if case.get('burst') else ['sequential:equal-but-different-values']
         out = ['producers:%d' % len(case['programs']), 'granularity:' + case.get('gran', 'line'),
                'closer:' + ('join' if case.get('closer', 'join') == 'join' else 'producer'),
                'schedule:' + ('enumerated<=%d' % case['enum']['k'] if 'enum' in case else case['sched']['kind']),
@@ -823,6 +914,8 @@ class C12(Prop):
         return out
 
     def known_finding(self, case, failures):
+        if case.get('kind') == 'seqeq':
+            return None
         """K9 only: every failure is a stored value that differs from the synchronous twin's solely by what the caller
         appended to the list object after the write was requested"""
         body = [x for x in failures if not x.startswith('schedule ')]
@@ -831,10 +924,19 @@ class C12(Prop):
         return None
 
     def sample_repr(self, case):
+        if case.get('burst'):
+            return dict({k: v for k, v in case.items() if k != 'ops'}, ops='%d writes, then save' % (len(case['ops']) - 1))
         return {k: v for k, v in case.items() if not k.startswith('_')}
 
     # ---------------------------------------------------------------------------------------------------- search
     def shrink(self, case):
+        if case.get('kind') == 'seqeq' and case.get('burst'):
+            return
+        if case.get('kind') == 'seqeq':
+            for i in range(len(case['ops'])):
+                if case['ops'][i][1] != 'save':
+                    yield dict(case, ops=case['ops'][:i] + case['ops'][i + 1:])
+            return
         impl = case.get('_impl') or {}
         base = {k: v for k, v in case.items() if not k.startswith('_') and k != 'enum'}
         choices = impl.get('choices')
